@@ -10,6 +10,7 @@ import (
 	"context"
 	"flag"
 	"fmt"
+	"math/rand"
 	"sort"
 	"strings"
 
@@ -56,13 +57,140 @@ func one(w *vt.Writer, cands [][]int, k int) {
 			res = append(res, idx)
 		}
 	}()
-	w.Emit(vt.M{"ev": "sel", "c": cands, "k": k, "panic": panicked, "res": res})
+	w.Emit(vt.M{"ev": "sel", "via": "direct", "c": cands, "k": k, "panic": panicked, "res": res})
+}
+
+// ---------------------------------------------------------------------------------- store wrappers
+
+// fakeDB serves one candidate list per (usage, source); every beacon is tagged (InIfID) with
+// 100 x list number + position so that the driver can tell which list a returned beacon came from.
+type fakeDB struct {
+	lists map[beacon.Usage]map[addr.IA][]beacon.Beacon
+	srcs  []addr.IA
+}
+
+func (d *fakeDB) CandidateBeacons(_ context.Context, setSize int, usage beacon.Usage, src addr.IA) ([]beacon.Beacon, error) {
+	l := d.lists[usage][src]
+	if setSize < len(l) {
+		l = l[:setSize]
+	}
+	return append([]beacon.Beacon{}, l...), nil
+}
+func (d *fakeDB) BeaconSources(context.Context) ([]addr.IA, error) { return d.srcs, nil }
+func (d *fakeDB) InsertBeacon(context.Context, beacon.Beacon, beacon.Usage) (beacon.InsertStats, error) {
+	return beacon.InsertStats{}, nil
+}
+
+type listSpec struct {
+	cands [][]int
+	no    int
+}
+
+func randList(rng *rand.Rand) [][]int {
+	n := 1 + rng.Intn(7)
+	alpha := 2 + rng.Intn(5)
+	cands := make([][]int, n)
+	for j := range cands {
+		cands[j] = make([]int, 1+rng.Intn(4))
+		for x := range cands[j] {
+			cands[j][x] = rng.Intn(alpha)
+		}
+	}
+	sort.SliceStable(cands, func(a, b int) bool { return len(cands[a]) < len(cands[b]) })
+	return cands
+}
+
+// stores exercises the wrappers that call the selection with a policy's BestSetSize: every policy gets
+// its own BestSetSize and every (usage, source) its own candidate list, so a mixed-up policy, usage or
+// size shows up as a result that is not the specified selection of the right list with the right k.
+func stores(w *vt.Writer, rng *rand.Rand, n int) {
+	ctx := context.Background()
+	for it := 0; it < n; it++ {
+		no := 0
+		db := &fakeDB{lists: map[beacon.Usage]map[addr.IA][]beacon.Beacon{}}
+		specs := map[beacon.Usage]map[addr.IA]listSpec{}
+		add := func(u beacon.Usage, src addr.IA) {
+			no++
+			c := randList(rng)
+			bs := make([]beacon.Beacon, len(c))
+			for i := range c {
+				bs[i] = mkBeacon(c[i], no*100+i+1)
+			}
+			if db.lists[u] == nil {
+				db.lists[u], specs[u] = map[addr.IA][]beacon.Beacon{}, map[addr.IA]listSpec{}
+			}
+			db.lists[u][src] = bs
+			specs[u][src] = listSpec{c, no}
+		}
+		core := it%2 == 1
+		ks := rng.Perm(7) // distinct BestSetSize values 1..7
+		k := func(i int) int { return ks[i] + 1 }
+		emit := func(via string, out []beacon.Beacon, panicked bool, u beacon.Usage, kk int, srcs []addr.IA) {
+			for _, src := range srcs {
+				ls := specs[u][src]
+				res := []int{}
+				for _, b := range out {
+					ln, idx := int(b.InIfID)/100, int(b.InIfID)%100
+					if ln == ls.no {
+						res = append(res, idx)
+					} else if len(srcs) == 1 {
+						res = append(res, 0) // a beacon of another list
+					}
+				}
+				w.Emit(vt.M{"ev": "sel", "via": via, "c": ls.cands, "k": kk, "panic": panicked, "res": res})
+			}
+		}
+		call := func(f func() []beacon.Beacon) (out []beacon.Beacon, panicked bool) {
+			defer func() {
+				if recover() != nil {
+					panicked = true
+				}
+			}()
+			return f(), false
+		}
+		if !core {
+			for _, u := range []beacon.Usage{beacon.UsageProp, beacon.UsageUpReg, beacon.UsageDownReg} {
+				add(u, 0)
+			}
+			st, err := beacon.NewBeaconStore(beacon.Policies{
+				Prop:    beacon.Policy{BestSetSize: k(0), Type: beacon.PropPolicy},
+				UpReg:   beacon.Policy{BestSetSize: k(1), Type: beacon.UpRegPolicy},
+				DownReg: beacon.Policy{BestSetSize: k(2), Type: beacon.DownRegPolicy}}, db)
+			if err != nil {
+				vt.Fatal("NewBeaconStore: %v", err)
+			}
+			out, p := call(func() []beacon.Beacon { b, _ := st.BeaconsToPropagate(ctx); return b })
+			emit("Store.BeaconsToPropagate", out, p, beacon.UsageProp, k(0), []addr.IA{0})
+			out, p = call(func() []beacon.Beacon { b, _, _ := st.SegmentsToRegister(ctx, seg.TypeUp); return b })
+			emit("Store.SegmentsToRegister(up)", out, p, beacon.UsageUpReg, k(1), []addr.IA{0})
+			out, p = call(func() []beacon.Beacon { b, _, _ := st.SegmentsToRegister(ctx, seg.TypeDown); return b })
+			emit("Store.SegmentsToRegister(down)", out, p, beacon.UsageDownReg, k(2), []addr.IA{0})
+		} else {
+			db.srcs = ias[:1+rng.Intn(3)]
+			for _, u := range []beacon.Usage{beacon.UsageProp, beacon.UsageCoreReg} {
+				for _, src := range db.srcs {
+					add(u, src)
+				}
+			}
+			st, err := beacon.NewCoreBeaconStore(beacon.CorePolicies{
+				Prop:    beacon.Policy{BestSetSize: k(0), Type: beacon.PropPolicy},
+				CoreReg: beacon.Policy{BestSetSize: k(1), Type: beacon.CoreRegPolicy}}, db)
+			if err != nil {
+				vt.Fatal("NewCoreBeaconStore: %v", err)
+			}
+			out, p := call(func() []beacon.Beacon { b, _ := st.BeaconsToPropagate(ctx); return b })
+			emit("CoreStore.BeaconsToPropagate", out, p, beacon.UsageProp, k(0), db.srcs)
+			out, p = call(func() []beacon.Beacon { b, _, _ := st.SegmentsToRegister(ctx, seg.TypeCore); return b })
+			emit("CoreStore.SegmentsToRegister(core)", out, p, beacon.UsageCoreReg, k(1), db.srcs)
+		}
+	}
 }
 
 func main() {
 	out := flag.String("out", "beaconsel.ndjson", "output")
 	complete := flag.String("complete", "3:2:3,4:2:2", "complete enumerations n:len:links (candidates, links per candidate, link values)")
 	nrand := flag.Int("rand", 1500, "seeded larger cases")
+	nstores := flag.Int("stores", 300, "seeded Store / CoreStore set-ups (each: every wrapper once)")
 	flag.Parse()
 	w := vt.NewWriter(*out)
 
@@ -127,6 +255,7 @@ func main() {
 		}
 		one(w, cands, k)
 	}
+	stores(w, vt.Rand(27), *nstores)
 	w.Close()
 	fmt.Printf("cases=%d complete=%d random=%d\n", w.N, ncomplete, *nrand)
 }
